@@ -56,7 +56,7 @@
         Ok(())
     }
 
-// @h id=H2.1-P$p prop=C02,C17,C18 rep="p:0-3" quick="0-3" cap=900 mem=16 unwind=6 uw="FixW=130;h2_1_writer=62" stubs="Header::to_writer -> field recorder + 127 placeholder bytes in one write_all (header byte layout not checked); internal compression None; metadata = empty object" bounds="empty archive (T = 0 tiles), start position P = {0,1,7,60}[$p] into a stream pre-filled with 0x55; tile type, tile compression and the three zoom bytes symbolic"
+// @h id=H2.1-P$p prop=C02,C17,C18 rep="p:0-3" quick="0-3" quick_C02="0,2" cap=900 mem=16 unwind=6 uw="FixW=130;h2_1_writer=62" stubs="Header::to_writer -> field recorder + 127 placeholder bytes in one write_all (header byte layout not checked); internal compression None; metadata = empty object" bounds="empty archive (T = 0 tiles), start position P = {0,1,7,60}[$p] into a stream pre-filled with 0x55; tile type, tile compression and the three zoom bytes symbolic"
     /// archive writer on an empty archive: header fields describe contiguous in-file sections relative to P, counters zero, bytes before P untouched, stream left at the archive's end, and the header transfer is the last write - nothing earlier touches [P, P+127)
     #[kani::proof]
     #[kani::stub(crate::header::Header::to_writer, hdr_to_writer_stub)]
